@@ -257,11 +257,13 @@ def random_entry(seed) -> dict:
             expr = expr / (1 + b**2)
         elif op == "number":
             # a partially evaluated expression: one symbol replaced by a number (Float, Rational, complex, pi)
-            symbols = sorted((s for s in b.free_symbols if isinstance(s, sp.Symbol)), key=lambda s: s.name)
+            symbols = sorted((s for s in b.free_symbols if isinstance(s, sp.Symbol) and not s.is_integer),
+                             key=lambda s: s.name)  # never an angular momentum: Sum(..., (k, 0, pi)) does not unfold
             value = rng.choice([sp.Float("1.25"), sp.Rational(3, 7), 2 + sp.I, sp.pi, sp.Integer(0), sp.Float("-0.5")])
             expr = expr + (b.xreplace({rng.choice(symbols): value}) if symbols else b)
         else:
-            symbols = sorted((s for s in expr.free_symbols if isinstance(s, sp.Symbol)), key=lambda s: s.name)
+            symbols = sorted((s for s in expr.free_symbols if isinstance(s, sp.Symbol) and not s.is_integer),
+                             key=lambda s: s.name)
             if symbols and not b.atoms(sp.Indexed):
                 expr = expr.xreplace({rng.choice(symbols): b})
             else:
